@@ -46,12 +46,18 @@ Section Codec.
      exists k lvl, choose kd ae = Some k /\ r_ce r = [] /\ c_ce c = tok k /\
        c_body c = SOk (WCoded k (enc k lvl (r_body r)) true)).
   Proof. intros. split; [apply never_twice|apply coded_once]. Qed.
+
+  (* wrapping a handler twice (CompressHandler*(CompressHandler*(h))): the response still decodes to the handler's body *)
+  Theorem C22_twice_roundtrip : forall kd bl ol ae inflight cap sched r,
+    exists w, c_body (compress_handler_twice enc kd bl ol ae inflight cap sched r) = SOk w /\ decode dec w = Some (r_body r).
+  Proof. exact (twice_roundtrip enc dec dec_enc). Qed.
 End Codec.
 
 Print Assumptions C22_append_roundtrip.
 Print Assumptions C22_roundtrip_any_load.
 Print Assumptions C22_write_roundtrip.
 Print Assumptions C22_never_twice.
+Print Assumptions C22_twice_roundtrip.
 
 (* the coding a Compress handler picks occurs, as a bare list element (weight 1), in the request's Accept-Encoding:
    for ALL Accept-Encoding lines whose first line is syntactically valid (RFC 9110 12.5.3 elements
